@@ -23,7 +23,7 @@ func init() {
 	core.Register(&core.Prop{
 		ID: "C16", Level: "fault_enumeration", Exhaustive: true,
 		Technique: "call-site bookkeeping monitor: every exported stack-capturing / domain-computing function x depth x call path through non-inlinable helpers in two packages; expected frame = the harness's own runtime.Caller record of the d-th caller; observed through GetReportableStackTrace, GetOneLineSource, GetDomain",
-		Rule: "enumerated completely: 42 table entries (root package, errutil, withstack, domains) x 2 defining packages x 6 call paths (0-3 helpers alternating between two packages) x depth 0..min(3, helpers) for functions with a depth parameter. " +
+		Rule: "enumerated completely: 64 table entries (42 functions of the root package, errutil, withstack, domains + 22 argument-value variants that take other code paths: empty message / format, error-typed format arguments, %w, nil arguments, an already flagged cause) x 2 defining packages x 7 call paths (0-3 helpers alternating between two packages) x depth 0..min(3, helpers) for functions with a depth parameter. " +
 			"Non-trivial = every (function, package, path, depth) tuple; distinct = the tuple. The last case lists exported functions with stack/domain names from the repository's source (go/parser) and reports those missing from the table as unexercised.",
 		Cases: func(string) int { return 2*len(sa.Table) + 1 },
 		Floor: func(string) int { return 300 },
@@ -130,7 +130,11 @@ var stackName = regexp.MustCompile(`^(New|Newf|Errorf|NewWithDepthf?|Wrapf?|Wrap
 func listUnexercised(c *core.Ctx) {
 	have := map[string]bool{}
 	for _, e := range sa.Table {
-		have[e.Name] = true
+		name := e.Name
+		if i := strings.Index(name, "("); i > 0 {
+			name = name[:i] // argument-value variant of the same function
+		}
+		have[name] = true
 	}
 	repo := "/repo"
 	if r := os.Getenv("VERIF_REPO"); r != "" {
